@@ -77,10 +77,16 @@ package server
 //@   loop "for _, demon := range t.Agents.Agents"
 //@     invariant count: ghostint(t, "sent") == old(ghostint(t, "sent")) + len(t.EventsList) + nactive(idx__, t.Agents.Agents)
 
+// C06: a connection that never authenticated leaves no trace when it goes: nobody is told, no
+// operator is marked offline; for an authenticated one exactly the operators carrying its name are
+// marked offline, and the entry removed is the one asked for.
 //@ func (t *Teamserver) RemoveClient(ClientID string)
 //@   requires nonnil: t != nil
 //@   requires unlocked: allunlocked("Havoc/cmd/server.Client", "Mutex")
 //@   modifies *
+//@   guard-call told:  "EventBroadcast" Authenticated && arg(1) == ClientID
+//@   guard-store mark: "Users[.]Online" Authenticated && storedvalue() == false && t.Users[UserID].Name == userDisconnected
+//@   guard-call gone:  "Delete" typeis(arg(1), string) && unboxed(arg(1), string) == ClientID
 
 // Closures run by sync.Map.Range: their free variables are the cells of the
 // creating function; what those cells hold is a precondition (established by the
